@@ -3,6 +3,7 @@ flow), R2/R3 (qualifier sinks): queries over the events of an entry analysis."""
 from __future__ import annotations
 
 import ast
+from dataclasses import replace as dc_replace
 from typing import Iterable, List, Optional
 
 from ..av import AV, all_deps
@@ -54,8 +55,31 @@ def ELEM_ECL(r=SELF):
     return ("ELEM_OF", ("ECL", r))
 
 
+def is_private_helper_call(ev: Event) -> bool:
+    """A call that was inlined and whose callee is a private helper (leading underscore, not a dunder): its frame
+    counts as part of the caller's own code, so extracting a block into a private helper (or inlining one) does not
+    move the events a rule looks at.  Public methods stay opaque: they are API boundaries with obligations of their
+    own."""
+    if ev.kind != "call" or ev.callee is None or ev.sub is None:
+        return False
+    name = ev.callee.rsplit(".", 1)[-1]
+    return name.startswith("_") and not (name.startswith("__") and name.endswith("__"))
+
+
+def walk_own(summ: Summary, chain=(), ctrl=frozenset(), facts=frozenset(), depth=0):
+    """Events of the entry frame and of the private-helper frames reached from it.  Events of a helper frame are
+    yielded as copies that carry the control dependences and branch facts of the enclosing call sites."""
+    for ev in summ.events:
+        out = ev
+        if chain and (ctrl - ev.ctrl or facts - ev.facts):
+            out = dc_replace(ev, ctrl=ev.ctrl | ctrl, facts=ev.facts | facts)
+        yield out, chain
+        if depth < 6 and is_private_helper_call(ev) and not any(c.callee == ev.callee for c in chain):
+            yield from walk_own(ev.sub, chain + (ev,), ctrl | ev.ctrl, facts | ev.facts, depth + 1)
+
+
 def events(summ: Summary, kind=None, own=False):
-    it = ((ev, ()) for ev in summ.events) if own else summ.walk()
+    it = walk_own(summ) if own else summ.walk()
     for ev, chain in it:
         if kind is None or ev.kind == kind:
             yield ev, chain
